@@ -14,7 +14,9 @@ def sources(tier, seed, ctx):
     circs, rng = P.circuit_sources(tier, seed, ctx, 3, 5000, 60000, 500, 8000)
     srcs = []
     for n, cs in enumerate(circs):
-        for name in (P.PASSES if n % 4 == 0 else [P.PASSES[n % len(P.PASSES)], P.PASSES[(n * 3 + 1) % len(P.PASSES)]]):
+        fam = cs.get('family')
+        plist = (['MUO', 'cleanup'] if fam in ('F0', 'F1') else ['MDG', 'cleanup', 'cleanup_heavy']) if fam else (P.PASSES if n % 4 == 0 else [P.PASSES[n % len(P.PASSES)], P.PASSES[(n * 3 + 1) % len(P.PASSES)]])
+        for name in plist:
             s = dict(cs)
             s['pass'] = name
             srcs.append(s)
